@@ -60,12 +60,37 @@ def first_loop(body):
     return None, None
 
 
-def prefix_paths(F, body, stop_stmt=None, setup=None):
+class SoftGInterp(GInterp):
+    """Guard prefixes may allocate or convert before the main computation starts: a call outside the domain evaluates its operands (so that a `?`
+    or a user call inside them is still seen) and yields an opaque value."""
+    def _soft(self, n, sup):
+        try:
+            return sup(self, n)
+        except sym.Unsupported:
+            for a in ([n["recv"]] if n.get("recv") else []) + list(n.get("args", [])):
+                if a.get("k") != "Closure":
+                    try:
+                        self.ev(a)
+                    except sym.Unsupported:
+                        pass
+            return sym.Opaque("call:" + (n.get("def") or n.get("name") or "?"), n)
+
+    def ev_Call(self, n):
+        if "ovl" in n:
+            return GInterp.ev_Call(self, n)
+        return self._soft(n, GInterp.ev_Call)
+
+    def ev_MCall(self, n):
+        return self._soft(n, GInterp.ev_MCall)
+
+
+def prefix_paths(F, body, stop_stmt=None, setup=None, interp_cls=None):
+    cls = interp_cls or GInterp
     if stop_stmt is None:
         stop_stmt, _ = first_loop(body)
     if stop_stmt is None:
-        return paths.explore(F, body, setup=setup, interp_cls=GInterp)
-    return paths.explore(F, body, setup=setup, stop_at=stop_stmt, interp_cls=GInterp)
+        return paths.explore(F, body, setup=setup, interp_cls=cls)
+    return paths.explore(F, body, setup=setup, stop_at=stop_stmt, interp_cls=cls)
 
 
 def is_err(res):
@@ -76,11 +101,11 @@ def is_ok(res):
     return isinstance(res, sym.Variant) and res.name == "Ok"
 
 
-def check_preconditions(F, run, rule, body, dp, reqs, stop_stmt=None, allow_early_ok=False, setup=None, floor=1):
+def check_preconditions(F, run, rule, body, dp, reqs, stop_stmt=None, allow_early_ok=False, setup=None, floor=1, interp_cls=None):
     """reqs: list of (name, builder(interp) -> sympy formula that must hold when the main computation starts)."""
     where = F.loc(body)
     try:
-        ps = prefix_paths(F, body, stop_stmt, setup)
+        ps = prefix_paths(F, body, stop_stmt, setup, interp_cls)
     except sym.Unsupported as u:
         run.broken(rule, dp, "prefix", F.loc(body, u.node if isinstance(u.node, dict) else None), "cannot interpret the guard prefix: %s" % u)
         return []
